@@ -125,11 +125,17 @@ def _gen(seed: int, i: int, tier: str) -> dict:
 
 
 def gen(seed: int, i: int, tier: str) -> dict:
+    if i % 4 == 3:
+        from vsim.universe import gen_universe
+        return gen_universe(random.Random(f"U:C06:{seed}:{i}"), tier)
     scn = _gen(seed, i, tier)
     return G.maybe_tcp(random.Random(f"C06link:{seed}:{i}"), scn)
 
 
 def run(scn):
+    if scn.get("kind") == "universe":
+        from vsim.universe import run_universe
+        return run_universe(scn, PROP, ASPECTS, keep=None)
     st = {"react": False, "last_time_jump": None, "seen_time": False, "jumped": False}
     tz = scn["cfg"].get("tz")
 
